@@ -278,6 +278,59 @@ def supply_case(cfg, copied):
     return Case(cname, body, goals, family="supply/" + ("fast" if copied else "plain"), params=dict(copied=copied, **cfg.params()))
 
 
+def two_sets_case(cfg, copied):
+    """training path with TWO function sets of equal size used with one DeepONet in the same iteration (two conditions
+    sharing the network): after _forward_branch(set_B, k) the output belongs to the functions of set B; and a trunk
+    input whose variables arrive in another column order afterwards still means the same locations"""
+    cname = "two_function_sets/%s/%s" % (cfg.name, "fast" if copied else "plain")
+
+    def body(env):
+        sens = env.tensor("sens", (cfg.nsens, 1))
+        net, fs = build(env, cfg, copied, {}, sens=sens)
+        x = env.tensor("x", (cfg.nloc, cfg.X.dim))
+        tin = Points(x, cfg.X)
+        a, b = env.tensor("fa", ()), env.tensor("fb", ())
+        pA, pB = env.tensor("fpA", (cfg.nfun, 1)), env.tensor("fpB", (cfg.nfun, 1))
+
+        def fam(s, p):
+            v = p * s * s + a * s + b
+            if cfg.fdim == 2:
+                v = torch.cat([v, a * p - s], dim=-1)
+            return v
+
+        setA = CustomFunctionSet(fs, tp.samplers.DataSampler(Points(pA, P1)), fam)
+        setB = CustomFunctionSet(fs, tp.samplers.DataSampler(Points(pB, P1)), fam)
+        out = {}
+        for k in (0, 1):
+            net._forward_branch(setA, iteration_num=k)
+            oA = net(tin)
+            net._forward_branch(setB, iteration_num=k)
+            oB = net(tin)
+            out["iteration%d" % k] = (oA, oB)
+        vA, vB = fam(sens.unsqueeze(0), pA.unsqueeze(1)), fam(sens.unsqueeze(0), pB.unsqueeze(1))
+        ref = (net(tin, vA.clone()), net(tin, vB.clone()))
+        res = dict(out=out, ref=ref)
+        if len(list(cfg.X.keys())) > 1:  # the same locations with the trunk variables in reverse column order
+            names = list(cfg.X.keys())
+            cols, k0 = {}, 0
+            for n in names:
+                cols[n] = x[:, k0:k0 + cfg.X[n]]
+                k0 += cfg.X[n]
+            rev = Points.from_coordinates({n: cols[n] for n in reversed(names)})
+            res["reordered"] = (net(rev, vB.clone()), ref[1])
+        return res
+
+    def goals(o, L, env):
+        g = G(L, env)
+        for k, (oA, oB) in o["out"].items():
+            yield from g.cells("output_of_set_A[%s]" % k, oA, o["ref"][0])
+            yield from g.cells("output_of_set_B[%s]" % k, oB, o["ref"][1])
+        if "reordered" in o:
+            yield from g.cells("trunk_variables_in_other_column_order", o["reordered"][0], o["reordered"][1])
+
+    return Case(cname, body, goals, family="two_function_sets/" + ("fast" if copied else "plain"), params=dict(copied=copied, **cfg.params()))
+
+
 def resupply_case(cfg, copied):
     """history: the SAME branch-input object is supplied again after the weights changed (an optimizer step /
     load_state_dict) and after its buffer was refilled in place: the output is the inner product for the CURRENT
@@ -480,6 +533,7 @@ def cases(tier):
                 cs.append(inner_case(cfg, copied, layout))
             cs.append(supply_case(cfg, copied))
             cs.append(resupply_case(cfg, copied))
+            cs.append(two_sets_case(cfg, copied))
         for layout in ("coords", "leaf3d", "leaf2d"):
             cs.append(fast_case(cfg, layout))
     acts = ("cube",) if quick else ("cube", "tanh", "square")
